@@ -56,6 +56,12 @@ CLAIMED = {
         note="Sessions of <= 3 actions; quick keeps every history of the form read..change and stride-samples the rest (140 per program); the invalidation graph itself (_dependents) is not compared structurally, only through behaviour; one program per dependency-edge kind (F-edge) is always included.",
         design_ref="DESIGN.md section 3, C03",
     ),
+    "C09": dict(
+        technique="TLA+ dependency graph of a program (spec/KDeps.tla: edges for every way an option reads another, choice membership through visibility -> selection -> member values) with cycle detection evaluated by TLC for every base program and every single-added-edge variant (spec/MC_Deps.tla); verdict compared with the real loader over several constructions of the same text; accepted variants evaluated in many configurations",
+        text="Model checking: TLC computes HasLoop for each program obtained from acyclic bases by adding one edge of each kind between ordered pairs of options and compares it with what Kconfig() does (rejected with a dependency-loop message naming an option on the cycle, or accepted) in four constructions with perturbed allocation; every accepted tree then has all values, visibilities and outputs computed in up to 24 configurations with any exception counted as a violation.",
+        note="Edges between two members of the same choice are excluded (implicit sub-menu rule is outside the modelled language); bases have <= 8 options; the error text is only required to mention an option on a cycle.",
+        design_ref="DESIGN.md section 3, C09",
+    ),
 }
 
 REASON_PENDING = "check not built yet in this session (planned in DESIGN.md section 3); not claimed until its TLA+ model and conformance harness exist"
